@@ -2,6 +2,7 @@
 Correspondence harness (real tmo.Stream / tmo.MultiStream object graphs vs the heap model of
 coq/C13/Model.v), generators and the direct oracle."""
 import pickle, warnings
+import numpy as np
 from fractions import Fraction as F
 from vf import q, qlist, clist, cbool, cnat, copt, frac, fr_json
 
@@ -292,12 +293,13 @@ def aux_pickles(rx):
         msgs.append('pickle: Reaction state differs after round-trip')
     pr = tmo.ParallelReaction([r, tmo.Reaction('B_ -> C_', reactant='B_', X=rx['X'] / 2)])
     pr2 = pickle.loads(pickle.dumps(pr))
-    if not (list(pr2.X) == list(pr.X) and pr2._stoichiometry.to_array().tolist() == pr._stoichiometry.to_array().tolist()):
+    st = lambda x: [[float(v) for v in (row.to_array() if hasattr(row, 'to_array') else row)] for row in x._stoichiometry]
+    if not (list(pr2.X) == list(pr.X) and st(pr2) == st(pr) and list(pr2._reactant_index) == list(pr._reactant_index)):
         msgs.append('pickle: ParallelReaction state differs after round-trip')
     for c in e['chems']:
         c2 = pickle.loads(pickle.dumps(c))
         if not (c2.ID == c.ID and c2.CAS == c.CAS and c2.MW == c.MW and c2.Cn(300.) == c.Cn(300.) and c2.Hf == c.Hf
-                and c2.phase_ref == c.phase_ref and c2.H('l', 350., 101325.) == c.H('l', 350., 101325.)):
+                and c2.phase_ref == c.phase_ref and c2.H(350., 101325.) == c.H(350., 101325.)):
             msgs.append(f'pickle: Chemical {c.ID} state differs after round-trip')
     for t in e['thermo']:
         t2 = pickle.loads(pickle.dumps(t))
@@ -437,7 +439,8 @@ def classify(case, out):
 def cond(s):
     """conditions by name: {(phase, chemical): flow != 0}, T, P"""
     im = s._imol
-    ids = [c.ID for c in im._chemicals.tuple]
+    ids = {k: c.ID for k, c in enumerate(im._chemicals.tuple)}
+    ids = type('D', (dict,), {'__missing__': lambda self, k: f'#{k}'})(ids)
     fl = {}
     if is_multi(s):
         for p, r in zip(im._phases, im.data.rows):
